@@ -15,6 +15,7 @@
 package eventlog
 
 import (
+	"bytes"
 	"encoding/binary"
 	"fmt"
 	"io"
@@ -80,21 +81,33 @@ func (b *Uint32SizedArray) Unmarshal(r io.Reader) error {
 	return readSizedArray(r, &size, &b.Data)
 }
 
-func makeSized[T any](size any) ([]T, error) {
+func sizeOf(size any) (uint32, error) {
 	switch s := size.(type) {
 	case *byte:
-		if *s == 0 {
-			return nil, nil
-		}
-		return make([]T, *s), nil
+		return uint32(*s), nil
 	case *uint32:
-		if *s == 0 {
-			return nil, nil
-		}
-		return make([]T, *s), nil
+		return *s, nil
 	default:
-		return nil, fmt.Errorf("unsupported array size type %T", size)
+		return 0, fmt.Errorf("unsupported array size type %T", size)
 	}
+}
+
+// readFull reads exactly size bytes from r. The result grows as data arrives, so a declared size
+// that exceeds the available data cannot force a large allocation. The number of bytes read is
+// returned alongside any error.
+func readFull(r io.Reader, size uint32) ([]byte, int, error) {
+	if size == 0 {
+		return nil, 0, nil
+	}
+	var buf bytes.Buffer
+	n, err := io.CopyN(&buf, r, int64(size))
+	if err == io.EOF {
+		err = io.ErrUnexpectedEOF
+	}
+	if err != nil {
+		return nil, int(n), err
+	}
+	return buf.Bytes(), int(n), nil
 }
 
 // Uint32SizedArrayT represents a uint32 sized array of a given type, with elements that are
@@ -114,16 +127,16 @@ func (d *Uint32SizedArrayT[T]) Unmarshal(r io.Reader) error {
 	if err := binary.Read(r, binary.LittleEndian, &size); err != nil {
 		return fmt.Errorf("failed to read Uint32SizedArrayT %T sized %d: %v", []T{}, size, err)
 	}
-	if size == 0 {
-		d.Array = nil
-		return nil
-	}
-	d.Array = make([]T, size)
-	for i := range d.Array {
-		d.Array[i] = d.Array[i].Create().(T)
-		if err := d.Array[i].Unmarshal(r); err != nil {
+	// The array grows as elements are read, so a declared size that exceeds the available data
+	// cannot force a large allocation.
+	d.Array = nil
+	for i := uint32(0); i < size; i++ {
+		var zero T
+		elt := zero.Create().(T)
+		if err := elt.Unmarshal(r); err != nil {
 			return fmt.Errorf("failed to unmarshal %T element %d: %v", []T{}, i, err)
 		}
+		d.Array = append(d.Array, elt)
 	}
 	return nil
 }
@@ -132,11 +145,12 @@ func readSizedArray(r io.Reader, size any, data *[]byte) error {
 	if err := binary.Read(r, binary.LittleEndian, size); err != nil {
 		return fmt.Errorf("failed to read array size as %T: %w", size, err)
 	}
-	result, err := makeSized[byte](size)
+	n, err := sizeOf(size)
 	if err != nil {
 		return err
 	}
-	if _, err := r.Read(result); err != nil {
+	result, _, err := readFull(r, n)
+	if err != nil {
 		return err
 	}
 	*data = result
